@@ -164,6 +164,11 @@ type env struct {
 	scCom    *chainx.Scenario
 	mtbNames []string
 	comNames []string
+	// second extension round
+	castShort   *conflictCast
+	mtbSetNames []string
+	r2Names     []string
+	reb         rebuiltCount
 }
 
 // scenario of a state.
@@ -201,6 +206,7 @@ func newEnv(r *vk.Run) (*env, error) {
 	tpls = append(tpls, conflictsTpl(e.cast), execFeeTpl("c07-exec-min", 1), execFeeTpl("c07-exec-frac", 300001))
 	tpls = append(tpls, chainx.TplByName("designate-oracle", "oracle-request")...)
 	tpls = append(tpls, extTpls()...)
+	tpls = append(tpls, e.r2Tpls()...)
 	sc, err := chainx.NewScenario(famSingle(protoExtra), 0, tpls)
 	if err != nil {
 		return nil, fmt.Errorf("preamble: %w", err)
@@ -217,6 +223,10 @@ func newEnv(r *vk.Run) (*env, error) {
 	}
 	hashUA, hashUB = sc.World.UA.Hash, sc.World.UB.Hash
 	e.st = append(e.st, extStates()...)
+	for _, s := range e.r2States() {
+		e.st = append(e.st, s)
+		e.r2Names = append(e.r2Names, s.Name)
+	}
 	if err := sc.Grow([]int{tSetup}); err != nil {
 		return nil, fmt.Errorf("setup block: %w", err)
 	}
@@ -482,7 +492,11 @@ func TestCheck(t *testing.T) {
 		scriptCov = e.runScripts()
 	}
 	t1 := time.Now()
-	var attrBlockCov, staleCov, countCov map[string]any
+	var attrBlockCov, staleCov, countCov, rebuiltCov map[string]any
+	if want("rebuilt") {
+		rebuiltCov = e.runRebuilt()
+	}
+	t1b := time.Now()
 	if want("block") {
 		blockCov = e.runBlocks()
 		attrBlockCov = e.runAttrBlocks()
@@ -498,7 +512,7 @@ func TestCheck(t *testing.T) {
 		feeCov = e.runFee()
 	}
 	t3 := time.Now()
-	fmt.Printf("C07 phases: sound+enc %.1fs, proposable %.1fs, fee+enc %.1fs\n", t1.Sub(t0).Seconds(), t2.Sub(t1).Seconds(), t3.Sub(t2).Seconds())
+	fmt.Printf("C07 phases: sound+enc %.1fs, rebuilt %.1fs, proposable %.1fs, fee+enc %.1fs\n", t1.Sub(t0).Seconds(), t1b.Sub(t1).Seconds(), t2.Sub(t1b).Seconds(), t3.Sub(t2).Seconds())
 	e.f.flush(r)
 	pprof.StopCPUProfile()
 	distinct := func(sub string) int { return len(e.outs[sub]) }
@@ -512,12 +526,15 @@ func TestCheck(t *testing.T) {
 		"fee-calculators":                  map[string]any{"rpc_calculatenetworkfee": int(e.count.rpcFee.Get()), "neotest_AddNetworkFee": int(e.count.ntFee.Get()), "distinct_outcomes": distinct("fee-calculators")},
 		"sound-new-states":                 map[string]any{"states": len(extStates()) + len(e.mtbNames) + len(e.comNames), "distinct_outcomes_of_the_valid_variant": distinct("sound-new-states")},
 		"max-verification-gas-witness":     e.outs["maxgas-witness"],
+		"rebuilt-caches": map[string]any{"cases_on_rebuilt_nodes": int(e.reb.cases.Get()), "submissions": int(e.reb.submissions.Get()), "nodes": int(e.reb.nodes.Get()), "resets": int(e.reb.resets.Get()),
+			"proposals": int(e.reb.packs.Get()), "distinct_outcomes": distinct("rebuilt"), "distinct_pack_outcomes": distinct("rebuilt-pack")},
+		"r2-states": map[string]any{"states": e.r2Names, "distinct_outcomes": distinct("r2-states")},
 	}
 	cov := map[string]any{
 		"extension_families":                       ext,
 		"states":                                   e.count.states.Len(),
-		"transitions":                              int(e.count.sound.Get() + e.count.fee.Get() + e.count.encVerdict.Get() + e.count.block.Get() + e.count.e2e.Get() + e.count.stale.Get() + e.count.countFam.Get()),
-		"traces_validated_against_impl":            int(e.count.sound.Get() + e.count.fee.Get() + e.count.encVerdict.Get() + e.count.block.Get() + e.count.e2e.Get() + e.count.stale.Get() + e.count.countFam.Get()),
+		"transitions":                              int(e.count.sound.Get() + e.count.fee.Get() + e.count.encVerdict.Get() + e.count.block.Get() + e.count.e2e.Get() + e.count.stale.Get() + e.count.countFam.Get() + e.reb.submissions.Get() + e.reb.packs.Get()),
+		"traces_validated_against_impl":            int(e.count.sound.Get() + e.count.fee.Get() + e.count.encVerdict.Get() + e.count.block.Get() + e.count.e2e.Get() + e.count.stale.Get() + e.count.countFam.Get() + e.reb.submissions.Get() + e.reb.packs.Get()),
 		"sound_submissions":                        int(e.count.sound.Get()),
 		"sound_rejections_checked_for_no_effect":   int(e.count.soundRej.Get()),
 		"fee_threshold_transactions":               int(e.count.fee.Get()),
@@ -534,6 +551,7 @@ func TestCheck(t *testing.T) {
 		"proposable_after_block_cases":             int(e.count.stale.Get()),
 		"proposable_count_varint":                  countCov,
 		"proposable_count_varint_cases":            int(e.count.countFam.Get()),
+		"rebuilt_caches":                           rebuiltCov,
 		"sound_end_to_end_blocks":                  int(e.count.e2e.Get()),
 		"sound_submissions_via_PoolTxWithData":     int(e.count.partial.Get()),
 		"sound_submissions_via_sendrawtransaction": int(e.count.rpc.Get()),
@@ -558,6 +576,10 @@ func TestCheck(t *testing.T) {
 		"a witness costing exactly MaxVerificationGAS: its cost comes from a linear model fitted on small instances of the same script (confirmed on a further instance), never from a run at the limit; it exists only at fee factors where the limit is reachable exactly (the default one)",
 		"after-block histories: the oracle is the proposal (what the pool offers after the block must form an accepted block); whether a transaction that is still valid stays pooled is recorded, not demanded",
 		"the multi-validator committee is taken from the member list (GetCommittee) and its majority account computed by the harness; HighPriority is demanded to follow it on both sides of the change",
+		"rebuilt: the statement quantifies over chain states, so two nodes in the same chain state (one never stopped, one reopened on its store / restarted after every block / reset from a longer chain) must take the same admission decisions; the predicate is evaluated on each node from that node's own getters and its own fee-calculator run and must agree as well; identical error classes are counted, not demanded",
+		"rebuilt: reset kinds - the perturbing blocks change every policy value, the blocked list, the designated roles, the whitelist, deploy state and put one valid menu transaction on chain and name another one in a Conflicts attribute; Blockchain.Reset is run on a stopped node as its documentation demands, submissions go to the instance that was reset, the proposals come from that node restarted once more; the two special transactions are submitted again in a last round after the chain has grown past the removed heights",
+		"rebuilt: not driven - state jump (statesync), nodes with RemoveUntraceableBlocks/KeepOnlyLatestState; not judged - whether a BLOCK carrying an inadmissible transaction is rejected by a rebuilt node (the statement is about pool admission and proposed blocks; the proposals of rebuilt nodes must be accepted by a never-restarted replica, which is judged)",
+		"state whitelist: the witness cost of scripts that call a whitelisted method comes from a verification run on the node (as for all non-standard witnesses); what is demanded is that it is the acceptance threshold and the same on every node kind, not its absolute value",
 		"not demanded (no rule in this code base, statement silent): push-only invocation scripts; well-formedness beyond what the VM loader checks for witness scripts is taken from the node's own error class only in the variants custom-*-malformed",
 	})
 }
